@@ -63,6 +63,7 @@ type pgTx struct {
 
 func (t *pgTx) Commit(ctx context.Context) error {
 	if t.done {
+		t.s.log = append(t.s.log, "REFUSED:commit") // a transaction that is over is ended once more
 		return pgx.ErrTxClosed
 	}
 	t.done = true
@@ -84,6 +85,7 @@ func (t *pgTx) Commit(ctx context.Context) error {
 
 func (t *pgTx) Rollback(ctx context.Context) error {
 	if t.done {
+		t.s.log = append(t.s.log, "REFUSED:rollback")
 		return pgx.ErrTxClosed
 	}
 	t.done = true
